@@ -100,3 +100,57 @@ def c04(r):
     r.negctl("Trace_Civil", ch_e[0], {"C04Edge": [
         (lambda e: e["op"] == "NextYear" and bump(["res", 0])(e), "C04.edge.NextYear"),
     ]})
+
+
+# --------------------------------------------------------------------- C07
+@plan("C07", "model_checking")
+def c07(r):
+    thorough = r.tier == "thorough"
+    r.rule = ("TLC model-checks MC_Ctor (civil constructor over an argument box month -1..14 x day -1..33 x 4x4x4 time values, "
+              "6 years) and MC_Civil (no reachable cursor is invalid); the same box is driven through the real NewSolar for %s, "
+              "the lunar / Taoist / Buddhist constructors for every (month -12..13, day 0..31) of those lunar years against the image "
+              "of the civil days (observed by converting every civil day around the year), and seeded random programs of "
+              "stepping/conversion calls across Solar, Lunar, Tao, Foto objects with every intermediate object projected. "
+              "Distinct non-trivial case = distinct argument tuple or distinct (state, call) step." %
+              ("every year 1..9998" if thorough else "60 seeded + 27 boundary years"))
+    r.assumptions += ["the lunar image is observed through Solar.GetLunar (its correctness is C01/C06)",
+                      "chains bound the validity of lunar-side objects only by field ranges; exact validity against month tables is decided in C01/C06"]
+    r.build()
+    r.mc("MC_Ctor", "MC_Ctor")
+    r.mc("MC_Civil", "MC_Civil")
+    ch_c = r.drive("c07civil", args={"years": 60}, maxlines=40000)
+    r.validate("Trace_Civil", ch_c)
+    ch_l = r.drive("c07lunar", args={"years": 60}, maxlines=150)
+    r.validate("Trace_Civil", ch_l)
+    ch_ch = r.drive("c07chains", args={"chains": 60000 if thorough else 1600, "steps": 30}, maxlines=40000)
+    r.validate("Trace_Civil", ch_ch)
+    r.sample_from([ch_c[0], ch_l[0], ch_ch[0]])
+    def key(e):
+        ev = e.get("ev")
+        if ev == "C07Civil":
+            return ("c", e["y"], e["m"])
+        if ev == "C07Time":
+            return ("t", e["y"], e["m"], e["d"])
+        if ev == "C07Lunar":
+            return ("l", e["y"])
+        if ev == "C07Step":
+            return ("s", tuple(e["res"]), e["op"], e["n"])
+        return None
+    r.count_distinct(ch_c + ch_l + ch_ch[:6], key)
+    def flip(path):
+        def f(e):
+            cur = e
+            for p in path[:-1]:
+                cur = cur[p]
+            cur[path[-1]] = 1 - cur[path[-1]]
+            return True
+        return f
+    r.negctl("Trace_Civil", ch_c[0], {
+        "C07Civil": [(lambda e: 1 <= e["m"] <= 12 and flip(["o", 30])(e), "C07.civil."), (lambda e: flip(["o", 0])(e), "C07.civil.accepted")],
+        "C07Time": [(flip(["t", 0, 3]), "C07.civil.time-outcome")]})
+    r.negctl("Trace_Civil", ch_l[0], {"C07Lunar": [
+        (flip(["lunar", 13, 1]), "C07.lunar.rejected"), (flip(["tao", 0, 0]), "C07.tao.accepted"),
+        (flip(["foto", 14, 31]), "C07.foto."), (bump(["got", 0, 10]), "C07.lunar.civil-day")]})
+    r.negctl("Trace_Civil", ch_ch[0], {"C07Step": [
+        (lambda e: e["op"] == "LunarNext" and bump(["res", 2])(e), "C07.chain.LunarNext"),
+        (lambda e: e["op"] == "LunarCtor" and bump(["lun", 2])(e) and bump(["lun", 2])(e) and False or (e["op"] == "LunarCtor" and e["lun"].__setitem__(2, 31) is None), "C07.chain.lunar-shape")]})
